@@ -2,7 +2,8 @@
 
 Bounded-exhaustive enumeration of the grammar Gpp of DESIGN.md (### C11): units made of <= 2 macro definitions,
 <= 2 uses, <= 1 conditional block (nested once), <= 1 #include, each unit under every subset of the configuration
-options {-DA, -DA=2, -DB=A, -UA, -Iinc, --include=pre.h}.  Many units are put into ONE file (each unit uses its own
+options {-DA, -DA=2, -DB=A, -UA, -Iinc, --include=pre.h} except the 16 that contain both -DA and -DA=2 (not one
+configuration: gcc lets the last definition win and warns, cppcheck lets the first win).  Many units are put into ONE file (each unit uses its own
 macro names M<k>/N<k>, starts with the marker `int unit<k>;` and #undefs everything it defined), the file is run
 through `gcc -E -P -undef -nostdinc <cfg>` and `cppcheck -E --max-configs=1 <cfg>`, both outputs are tokenised with
 the same pp-token lexer and compared unit by unit.
